@@ -186,6 +186,9 @@ def _models():
     return Counting, CountingVI, StepTheta
 
 
+_BIRTHDAY = {"runs": 0}
+
+
 def _prefix(rng, k=1000):
     return rng.integers(0, 2**64, size=k, dtype=np.uint64, endpoint=False)
 
@@ -286,6 +289,25 @@ def check_case(case):
     # informational only: the statement does not prescribe the mechanism, so disagreement with numpy's spawn is
     # not a violation as long as the stream is a function of the triple and differs between chains (checked below)
     labels.append("agrees-with-SeedSequence.spawn" if np.array_equal(own, ref) else "other-seeding-mechanism")
+    if not np.array_equal(own, ref) and _BIRTHDAY["runs"] < 2:
+        # a mechanism other than numpy's spawn: the streams of up to 12000 chains of ONE run are compared wholesale (20 s at most):
+        # seed material narrower than about 27 bits shows as two chains with the same first outputs.  A 32-bit funnel would need
+        # ~10^5 chains of one run, whose cost grows with the square of that number - beyond what a generated search can pay (see
+        # DESIGN.md 5.6, C17-9).  Not run for numpy's own mechanism, whose children differ in 128 bits.
+        import time as _time
+
+        _BIRTHDAY["runs"] += 1
+        N_ = 12000
+        t_end, firsts = _time.time() + 20.0, {}
+        for c_ in range(N_):
+            if _time.time() > t_end:
+                break
+            mb = Counting()
+            sampling.sample(model=mb, results=ThetaHolder(n_thetas=1), seed=seed, n_chains=N_, chain_index=c_, n_burnin=0, thin=1)
+            key_ = tuple(int(x_) for x_ in mb.rng.integers(0, 2**63, size=2))
+            require(key_ not in firsts, "rng.chains_distinct_birthday", lambda: "seed %d, %d chains: chains %d and %d are handed generators with identical output" % (seed, N_, firsts[key_], c_))
+            firsts[key_] = c_
+        labels.append("birthday-search")
     # same triple, different schedule -> identical generator
     m2 = Counting()
     sampling.sample(model=m2, results=ThetaHolder(n_thetas=case.get("n2", 1)), seed=seed, n_chains=n_chains, chain_index=chain, n_burnin=case.get("b2", 0), thin=case.get("t2", 1))
